@@ -10,19 +10,27 @@
 EXTENDS Prop_C20, TLC, Json
 
 CONSTANTS NId, NMeta, MaxPkt, MaxCalls,
+          NResp,   \* number of threads calling ServerPuncher.Respond (each picks the attempt id of its call: two of them
+                   \* may name the same attempt and overlap - the second one is refused as a duplicate id)
           Respond, \* TRUE: ServerPuncher.Respond calls (server_punch.go:39-105) are part of the environment
-          Mut     \* "leak" (Respond registers before it validates and an error exit skips the removal) | "none" | "noreg" (divert any punch-shaped packet) | "stale" (registry snapshot taken when
+          Mut     \* "dupreg" (addAttempt registers the metadata on the socket before it looks the id up in its own table: a
+                  \* refused duplicate call leaves ITS metadata under the first call's id) | "leak" (Respond registers before it validates and an error exit skips the removal) | "none" | "noreg" (divert any punch-shaped packet) | "stale" (registry snapshot taken when
                   \* ReadFrom is entered) | "allstun" (every STUN message diverted) | "inplace" (a packet that
                   \* was tried against a registered attempt comes back altered)
 
 VARIABLES att,     \* id -> metadata (0 = not registered)
           op,      \* id -> state of the caller thread working on that id
           sp,      \* ids in the ServerPuncher's own table
+          rop,     \* Respond thread -> <<state, metadata, attempt id>>
           pc, cur, snap, fresh,     \* reader
           npkt, ncalls, mon, hist
-vars == <<att, op, sp, pc, cur, snap, fresh, npkt, ncalls, mon, hist>>
+vars == <<att, op, sp, rop, pc, cur, snap, fresh, npkt, ncalls, mon, hist>>
 
 Ids == 1..NId
+RT == 1..NResp
+Cid(t) == NId + t                      \* the call's own id in the events (ids 1..NId are the direct registry callers)
+RIdle == <<"idle", 0, 0>>
+RBusy(id) == \E t \in RT : rop[t][1] # "idle" /\ rop[t][3] = id
 MetaS == 1..NMeta
 Kinds == {<<"punch", a>> : a \in MetaS} \cup {<<"stun", 0>>, <<"stunreq", 0>>, <<"other", 0>>}
 
@@ -39,80 +47,86 @@ ERegRet(id, a) == [ev |-> "AddRet", scn |-> 0, id |-> id, a |-> a, ok |-> TRUE]
 ERem(name, id) == [ev |-> name, scn |-> 0, id |-> id]
 
 \* ---------------- registry callers (one thread per id)
-AddCall(id, a) == /\ op[id] = <<"idle", 0>> /\ ncalls < MaxCalls
+AddCall(id, a) == /\ op[id] = <<"idle", 0>> /\ ncalls < MaxCalls /\ ~RBusy(id) /\ id \notin sp
                   /\ op' = [op EXCEPT ![id] = <<"ac", a>>] /\ ncalls' = ncalls + 1
                   /\ mon' = MonStep(mon, EReg("AddCall", id, a), 0)
                   /\ hist' = Append(hist, <<"ac", id, a>>)
-                  /\ UNCHANGED <<att, sp, pc, cur, snap, fresh, npkt>>
+                  /\ UNCHANGED <<att, sp, rop, pc, cur, snap, fresh, npkt>>
 AddEff(id) == /\ op[id][1] = "ac"
               /\ att' = [att EXCEPT ![id] = op[id][2]]
               /\ op' = [op EXCEPT ![id] = <<"ae", op[id][2]>>]
-              /\ UNCHANGED <<sp, pc, cur, snap, fresh, npkt, ncalls, mon, hist>>
+              /\ UNCHANGED <<sp, rop, pc, cur, snap, fresh, npkt, ncalls, mon, hist>>
 AddRet(id) == /\ op[id][1] = "ae"
               /\ op' = [op EXCEPT ![id] = <<"idle", 0>>]
               /\ mon' = MonStep(mon, ERegRet(id, op[id][2]), 0)
               /\ hist' = Append(hist, <<"ar", id, 0>>)
-              /\ UNCHANGED <<att, sp, pc, cur, snap, fresh, npkt, ncalls>>
-RemCall(id) == /\ op[id] = <<"idle", 0>> /\ ncalls < MaxCalls
+              /\ UNCHANGED <<att, sp, rop, pc, cur, snap, fresh, npkt, ncalls>>
+RemCall(id) == /\ op[id] = <<"idle", 0>> /\ ncalls < MaxCalls /\ ~RBusy(id) /\ id \notin sp
                /\ op' = [op EXCEPT ![id] = <<"rc", 0>>] /\ ncalls' = ncalls + 1
                /\ mon' = MonStep(mon, ERem("RemCall", id), 0)
                /\ hist' = Append(hist, <<"rc", id, 0>>)
-               /\ UNCHANGED <<att, sp, pc, cur, snap, fresh, npkt>>
+               /\ UNCHANGED <<att, sp, rop, pc, cur, snap, fresh, npkt>>
 RemEff(id) == /\ op[id][1] = "rc"
               /\ att' = [att EXCEPT ![id] = 0]
               /\ op' = [op EXCEPT ![id] = <<"re", 0>>]
-              /\ UNCHANGED <<sp, pc, cur, snap, fresh, npkt, ncalls, mon, hist>>
+              /\ UNCHANGED <<sp, rop, pc, cur, snap, fresh, npkt, ncalls, mon, hist>>
 RemRet(id) == /\ op[id][1] = "re"
               /\ op' = [op EXCEPT ![id] = <<"idle", 0>>]
               /\ mon' = MonStep(mon, ERem("RemRet", id), 0)
               /\ hist' = Append(hist, <<"rr", id, 0>>)
-              /\ UNCHANGED <<att, sp, pc, cur, snap, fresh, npkt, ncalls>>
+              /\ UNCHANGED <<att, sp, rop, pc, cur, snap, fresh, npkt, ncalls>>
 
-\* ---------------- ServerPuncher.Respond (server_punch.go:39-105), one call at a time per id, attempt id = id
-ERespCall(id) == [ev |-> "RespCall", scn |-> 0, id |-> id, rid |-> id]
-ERespRet(id, ok, dup) == [ev |-> "RespRet", scn |-> 0, id |-> id, rid |-> id, ok |-> ok, dup |-> dup]
-RespReturn(m, id, ok, dup) == MonStep(MonStep(m, ERespRet(id, ok, dup), 0), ERem("RemRet", id), 0)
+\* ---------------- ServerPuncher.Respond (server_punch.go:39-105): thread t, call id Cid(t), attempt id rid
+ERespCall(t, rid) == [ev |-> "RespCall", scn |-> 0, id |-> Cid(t), rid |-> rid]
+ERespRet(t, rid, ok, dup) == [ev |-> "RespRet", scn |-> 0, id |-> Cid(t), rid |-> rid, ok |-> ok, dup |-> dup]
+RespReturn(m, t, rid, ok, dup) == MonStep(MonStep(m, ERespRet(t, rid, ok, dup), 0), ERem("RemRet", Cid(t)), 0)
 \* (the driver never calls Respond with an id that is registered directly through AddPunchAttempt)
-RespCall(id, a) == /\ Respond /\ op[id] = <<"idle", 0>> /\ ncalls < MaxCalls /\ (att[id] = 0 \/ id \in sp)
-                   /\ op' = [op EXCEPT ![id] = <<"sc", a>>] /\ ncalls' = ncalls + 1
-                   /\ mon' = MonStep(MonStep(mon, ERespCall(id), 0), EReg("AddCall", id, a), 0)
-                   /\ UNCHANGED <<att, sp, pc, cur, snap, fresh, npkt, hist>>
+RespCall(t, rid, a) == /\ Respond /\ rop[t] = RIdle /\ ncalls < MaxCalls
+                       /\ op[rid] = <<"idle", 0>> /\ (att[rid] = 0 \/ rid \in sp \/ RBusy(rid))
+                       /\ rop' = [rop EXCEPT ![t] = <<"sc", a, rid>>] /\ ncalls' = ncalls + 1
+                       /\ mon' = MonStep(MonStep(mon, ERespCall(t, rid), 0), EReg("AddCall", Cid(t), a), 0)
+                       /\ UNCHANGED <<att, op, sp, pc, cur, snap, fresh, npkt, hist>>
 \* an argument is rejected (no compatible candidates, negative timeout, non-positive interval): the unchanged
 \* code has registered nothing yet; the "leak" mutant has, and returns without the deferred removal
-RespFail(id) == /\ op[id][1] = "sc"
-                /\ op' = [op EXCEPT ![id] = <<"idle", 0>>]
-                /\ IF Mut = "leak" THEN
-                      IF id \in sp THEN /\ mon' = RespReturn(mon, id, FALSE, TRUE) /\ UNCHANGED <<att, sp>>
-                      ELSE /\ att' = [att EXCEPT ![id] = op[id][2]] /\ sp' = sp \cup {id}
-                           /\ mon' = RespReturn(mon, id, FALSE, FALSE)
-                   ELSE /\ mon' = RespReturn(mon, id, FALSE, FALSE) /\ UNCHANGED <<att, sp>>
-                /\ UNCHANGED <<pc, cur, snap, fresh, npkt, ncalls, hist>>
-\* addAttempt (:122-139): refused when the id is in the puncher's table
-RespAdd(id) == /\ op[id][1] = "sc"
-               /\ IF id \in sp
-                  THEN /\ op' = [op EXCEPT ![id] = <<"idle", 0>>]
-                       /\ mon' = RespReturn(mon, id, FALSE, TRUE) /\ UNCHANGED <<att, sp>>
-                  ELSE /\ op' = [op EXCEPT ![id] = <<"sa", op[id][2]>>]
-                       /\ att' = [att EXCEPT ![id] = op[id][2]] /\ sp' = sp \cup {id} /\ mon' = mon
-               /\ UNCHANGED <<pc, cur, snap, fresh, npkt, ncalls, hist>>
+RespFail(t) == /\ rop[t][1] = "sc"
+               /\ rop' = [rop EXCEPT ![t] = RIdle]
+               /\ LET a == rop[t][2]  rid == rop[t][3] IN
+                  IF Mut = "leak" THEN
+                      IF rid \in sp THEN /\ mon' = RespReturn(mon, t, rid, FALSE, TRUE) /\ UNCHANGED <<att, sp>>
+                      ELSE /\ att' = [att EXCEPT ![rid] = a] /\ sp' = sp \cup {rid}
+                           /\ mon' = RespReturn(mon, t, rid, FALSE, FALSE)
+                  ELSE /\ mon' = RespReturn(mon, t, rid, FALSE, FALSE) /\ UNCHANGED <<att, sp>>
+               /\ UNCHANGED <<op, pc, cur, snap, fresh, npkt, ncalls, hist>>
+\* addAttempt (:122-139): refused when the id is in the puncher's table - the attempt of the call that owns the id
+\* stays as it is (the "dupreg" mutant has already overwritten its metadata on the socket)
+RespAdd(t) == /\ rop[t][1] = "sc"
+              /\ LET a == rop[t][2]  rid == rop[t][3] IN
+                 IF rid \in sp
+                 THEN /\ rop' = [rop EXCEPT ![t] = RIdle]
+                      /\ att' = IF Mut = "dupreg" THEN [att EXCEPT ![rid] = a] ELSE att
+                      /\ mon' = RespReturn(mon, t, rid, FALSE, TRUE) /\ UNCHANGED sp
+                 ELSE /\ rop' = [rop EXCEPT ![t] = <<"sa", a, rid>>]
+                      /\ att' = [att EXCEPT ![rid] = a] /\ sp' = sp \cup {rid} /\ mon' = mon
+              /\ UNCHANGED <<op, pc, cur, snap, fresh, npkt, ncalls, hist>>
 \* result, timeout or cancellation: the deferred removeAttempt (:141-146) runs
-RespDone(id) == /\ op[id][1] = "sa"
-                /\ op' = [op EXCEPT ![id] = <<"idle", 0>>]
-                /\ att' = [att EXCEPT ![id] = 0] /\ sp' = sp \ {id}
-                /\ \E ok \in BOOLEAN : mon' = RespReturn(mon, id, ok, FALSE)
-                /\ UNCHANGED <<pc, cur, snap, fresh, npkt, ncalls, hist>>
+RespDone(t) == /\ rop[t][1] = "sa"
+               /\ rop' = [rop EXCEPT ![t] = RIdle]
+               /\ LET rid == rop[t][3] IN
+                  /\ att' = [att EXCEPT ![rid] = 0] /\ sp' = sp \ {rid}
+                  /\ \E ok \in BOOLEAN : mon' = RespReturn(mon, t, rid, ok, FALSE)
+               /\ UNCHANGED <<op, pc, cur, snap, fresh, npkt, ncalls, hist>>
 
 \* ---------------- reader (punch_conn.go:117-165)
 RCall == /\ pc = "call" /\ pc' = "wait"
          /\ snap' = IF fresh THEN att ELSE snap      \* only the "stale" mutant looks at it
          /\ fresh' = FALSE
          /\ mon' = MonStep(mon, E0("InnerCall"), 0)
-         /\ UNCHANGED <<att, op, sp, cur, npkt, ncalls, hist>>
+         /\ UNCHANGED <<att, op, sp, rop, cur, npkt, ncalls, hist>>
 RInject(kind) == /\ pc = "wait" /\ npkt < MaxPkt
                  /\ pc' = "got" /\ cur' = kind /\ npkt' = npkt + 1
                  /\ mon' = MonStep(mon, EInject(npkt + 1, kind, npkt + 1), 0)
                  /\ hist' = Append(hist, <<"p", kind[1], kind[2]>>)
-                 /\ UNCHANGED <<att, op, sp, snap, fresh, ncalls>>
+                 /\ UNCHANGED <<att, op, sp, rop, snap, fresh, ncalls>>
 RDecide == /\ pc = "got"
            /\ LET reg == IF Mut = "stale" THEN snap ELSE att
                   isReg == \E id \in Ids : reg[id] # 0 /\ reg[id] = cur[2]
@@ -124,22 +138,23 @@ RDecide == /\ pc = "got"
                  ELSE /\ mon' = MonStep(mon, ERead(IF Mut = "inplace" /\ tried THEN 0 ELSE npkt), 0)
                       /\ fresh' = TRUE
            /\ pc' = "call"
-           /\ UNCHANGED <<att, op, sp, cur, snap, npkt, ncalls, hist>>
+           /\ UNCHANGED <<att, op, sp, rop, cur, snap, npkt, ncalls, hist>>
 \* end of the scenario: the inner socket is closed once everything has returned
-REnd == /\ pc = "wait" /\ \A id \in Ids : op[id][1] = "idle"
+REnd == /\ pc = "wait" /\ \A id \in Ids : op[id][1] = "idle" /\ \A t \in RT : rop[t] = RIdle
         /\ pc' = "done"
         /\ mon' = MonStep(MonStep(mon, E0("InnerEOF"), 0), E0("ReadErr"), 0)
-        /\ UNCHANGED <<att, op, sp, cur, snap, fresh, npkt, ncalls, hist>>
+        /\ UNCHANGED <<att, op, sp, rop, cur, snap, fresh, npkt, ncalls, hist>>
 
 Init == /\ att = [id \in Ids |-> 0] /\ op = [id \in Ids |-> <<"idle", 0>>] /\ sp = {}
+        /\ rop = [t \in RT |-> RIdle]
         /\ pc = "call" /\ cur = <<"other", 0>> /\ snap = [id \in Ids |-> 0] /\ fresh = TRUE
         /\ npkt = 0 /\ ncalls = 0 /\ hist = <<>>
         /\ mon = MonStep(MonInit, [ev |-> "Reset", scn |-> 0], 0)
 
 Next == \/ \E id \in Ids : \/ \E a \in MetaS : AddCall(id, a)
                            \/ AddEff(id) \/ AddRet(id) \/ RemCall(id) \/ RemEff(id) \/ RemRet(id)
-                           \/ \E a \in MetaS : RespCall(id, a)
-                           \/ RespFail(id) \/ RespAdd(id) \/ RespDone(id)
+        \/ \E t \in RT : \/ \E rid \in Ids, a \in MetaS : RespCall(t, rid, a)
+                          \/ RespFail(t) \/ RespAdd(t) \/ RespDone(t)
         \/ RCall \/ RDecide \/ REnd
         \/ \E kind \in Kinds : RInject(kind)
 Spec == Init /\ [][Next]_vars
@@ -151,5 +166,5 @@ NoHardViolation == \A v \in mon.viol : v.clause \in {"DRIFT_NotDiverted", "DRIFT
 NoSwallowed  == \A v \in mon.viol : v.clause # "Swallowed"
 NoDupRefusal == \A v \in mon.viol : v.clause # "RemovedOnReturn"
 PrintScn == (pc = "done") => PrintT(<<"SCN", ToJson(hist)>>)
-View == <<att, op, sp, pc, cur, snap, fresh, npkt, ncalls, mon>>
+View == <<att, op, sp, rop, pc, cur, snap, fresh, npkt, ncalls, mon>>
 =============================================================================
